@@ -32,6 +32,7 @@ extern unsigned long shim_faults_hit;  /* injected failures since shim_reset */
 extern unsigned long shim_refused;     /* requests above the refusal line */
 extern int shim_next_tag;              /* tag given to the next tracked allocation */
 
+void shim_bail(int code) __attribute__((noreturn));  /* harness watchdog: leave the library call in flight (SHIM_CALL reports code, >= 3) */
 void shim_reset(void);                 /* free every live tracked block, clear tables, faults and log */
 void shim_evclear(void);
 int  shim_nlive(void);
